@@ -18,7 +18,7 @@ EXPLANATION = (
     "matrix is built from. C14.c: the clip itself selects rows only by comparing the Date column with both window bounds "
     "(never by index label / position). C14.d (write-once summary): the store of a season's summary row is reachable only through the True edge of a "
     "`harvest_flag is False` test (edge removal on the CFG) - otherwise days simulated after the harvest, which exist only when the "
-    "run is extended, rewrite a completed season's row. C14.f: = C15.c (whole-row operations on the weather frame name their columns, incl. the model's weather setter): a dropped in-window day shifts every later day onto later weather. C14.e: same rule as C08.e - an aggregate over all seasons of the window makes completed seasons depend on the end date (known finding F19). C14.g: the yearly CO2 series is interpolated from the whole table the user supplied - nothing derived from the clock selects its rows - so a completed season's CO2 forcing does not depend on the end date. C14.h: the month/day template of the latest harvest date is not computed from the end date. C14.i (= the interpolation part of C19.e): the water-table series is interpolated by time, never by position over the union of observations and simulation days - positional interpolation makes the depth inside a completed season depend on the window's end (and on observations outside the window). C14.j (= C13.e): the dated irrigation schedule is bound to the simulation days by label; a day offset used as an array position is compared with 0 and with the length (a negative offset files an event relative to the END of the window: a completed season's irrigation would change with the end date). NOT decided: that extending the end date leaves completed seasons of thermal-time crops "
+    "run is extended, rewrite a completed season's row. C14.f: = C15.c (whole-row operations on the weather frame name their columns, incl. the model's weather setter): a dropped in-window day shifts every later day onto later weather. C14.e: same rule as C08.e - an aggregate over all seasons of the window makes completed seasons depend on the end date (known finding F19). C14.g: the yearly CO2 series is interpolated from the whole table the user supplied - nothing derived from the clock selects its rows - so a completed season's CO2 forcing does not depend on the end date. C14.h: the month/day template of the latest harvest date is not computed from the end date. C14.i (= the interpolation part of C19.e): the water-table series is interpolated by time, never by position over the union of observations and simulation days - positional interpolation makes the depth inside a completed season depend on the window's end (and on observations outside the window). C14.j (= C13.e): the dated irrigation schedule is bound to the simulation days by label; a day offset used as an array position is compared with 0 and with the length (a negative offset files an event relative to the END of the window: a completed season's irrigation would change with the end date). C14.k: while stepping, the per-season date tables of the clock (planting_dates, harvest_dates) are read only at the season counter (or counter + 1); locals in the index are followed through their reaching definitions - an index that reads the number of seasons, a constant or counts from the end takes a season's calendar from another season's dates, and the last season's dates move with the end date. NOT decided: that extending the end date leaves completed seasons of thermal-time crops "
     "unchanged (depends on cumulative sums; SwitchGDD averages over all seasons by design).")
 
 
@@ -185,6 +185,8 @@ def run(chk, prog, tier):
     from ._siblings import co2_series_rules
     co2_series_rules(chk, prog, rule_interp="C14.g")
     harvest_template(chk, prog)
+    from ._siblings import season_table_index
+    season_table_index(chk, prog, "C14.k")
     from .c19 import interpolation_by_time
     interpolation_by_time(chk, prog, "C14.i")
     # C14.j = C13.e: dated inputs (the irrigation schedule) are bound to simulation days by label; a day offset used as an array position is
